@@ -95,10 +95,20 @@ def s_unit_and_monitor(ctx):
         name = names_all[it % len(names_all)]
         spec = dunit.general_spec(rng, name, max_calls=1, metrics=0, sizes=(2, 3, 5, 8), max_points=100, n_max=10, verbosity=False,
                                   steps_api=True, warm=rng.randint(1, 6), constraint=rng.random() < 0.4, ndims=rng.choice([1, 2, 3]))
+        if it % 5 == 4:
+            # degenerate warm-start geometry: only warm starts, all on one line (the best_para of runs that ended on the same border) -- three
+            # or four of them, i.e. no padding is needed even for the simplex
+            spec = dunit.general_spec(rng, name, max_calls=1, metrics=0, sizes=(5, 8), max_points=100, n_max=10, verbosity=False,
+                                      steps_api=True, warm=1, constraint=False, ndims=rng.choice([2, 2, 3]))
+            nm_ = list(spec["space"].keys())
+            fixed = {n_: spec["space"][n_][rng.randrange(len(spec["space"][n_]))] for n_ in nm_[1:]}
+            idx_ = rng.sample(range(len(spec["space"][nm_[0]])), rng.choice([3, 4]))
+            spec["init"] = {"warm_start": [dict({nm_[0]: spec["space"][nm_[0]][i_]}, **fixed) for i_ in idx_]}
         if rng.random() < 0.4:
             # grid counts that are not perfect powers of the dimension count, together with warm starts (the warm-start
             # positions come last in init_positions_l: a section that returns more than it was asked for pushes them out)
-            spec["init"]["grid"] = rng.choice([3, 4, 5, 7, 8, 9, 13, 16])
+            if it % 5 != 4:
+                spec["init"]["grid"] = rng.choice([3, 4, 5, 7, 8, 9, 13, 16])
         if rng.random() < 0.3 and len(spec["init"]["warm_start"]) > 1:
             spec["init"]["warm_start"].append(dict(spec["init"]["warm_start"][0]))     # a duplicate
         cfg = dict(spec["cfg"] or {})
